@@ -525,6 +525,11 @@ impl Settings {
   }
 
   pub fn first_inscription_height(&self) -> u32 {
+    #[cfg(feature = "verif")]
+    if let Some(height) = crate::verif::first_inscription_height_override() {
+      return height;
+    }
+
     if self.integration_test {
       0
     } else {
@@ -533,6 +538,11 @@ impl Settings {
   }
 
   pub fn first_rune_height(&self) -> u32 {
+    #[cfg(feature = "verif")]
+    if let Some(height) = crate::verif::first_rune_height_override() {
+      return height;
+    }
+
     if self.integration_test {
       0
     } else {
